@@ -33,14 +33,18 @@ CHECKS = {
                 "flatten, unknown, repeated), target none / sympy / casadi, -O well-formed or not, -o existing / missing / "
                 "a file. control = fault-free run of every invocation; single_faults = for every I/O site of the "
                 "invocation's own trace (every source open/read, every output open/write/close) every applicable fault "
-                "(EIO, EACCES, ENOENT = vanished, ENOSPC), one at a time, exhaustively; fault_pairs = seeded pairs. The "
+                "(EIO, EACCES, ENOENT = vanished, ENOSPC), one at a time, exhaustively; fault_pairs = seeded pairs; "
+                "casadi_faults = the same single-fault enumeration for -t casadi, where the sources are read inside the "
+                "CasADi API: the tool has to count exactly the transfer_model calls that raised (observed by wrapping, not "
+                "replacing, the call). The "
                 "exit status is compared with a staged reference (argparse -> 2; usage errors; unreadable/unparsable "
                 "files or no file; failing models incl. those whose output write was hit by a fired fault). "
                 "distinct_nontrivial = distinct (invocation, fired fault set).",
         "assumptions": ["over argv alone the property is a pure function; the control configuration is kept only so that "
                         "fault-mode relaxations cannot hide ordinary bugs, it is not claimed as coverage of all invocations",
                         "when errors of two categories coexist in the input only 0 < status <= total is required",
-                        "casadi target: control configuration only, and no files with syntax errors in the paths"],
+                        "casadi target: no files with syntax errors in the paths; under faults the per-model outcome is taken from "
+                        "the observed transfer_model call (whether an I/O error makes a compile fail is the API's business)"],
         "components": {"real": ["tools.compiler.main, pymoca parser / tree / SymPy generator / CasADi API from the working "
                                 "tree", "argparse"],
                        "simulated": ["file system faults at the open/read/write/close seam (EIO, EACCES, ENOSPC, vanished "
